@@ -203,9 +203,12 @@ def discharge(ck, ctx, it, marks, label, conv, sites_seen):
         elif kind == 'raw-view-after-owner-use':
             ck.ob(f"C07/O-raw-liveness/{label}", 'REFUTED', 'a flattened raw view of a Vec is used after its owner was accessed again')
         elif kind == 'O-float':
-            key = f"C07/O-float/{label}/{sanitize(fn)}"
-            if key in seen_keys: continue
-            seen_keys.add(key)
+            base_key = f"C07/O-float/{label}/{sanitize(fn)}"
+            sig = (base_key, ob['arg'].id)
+            if sig in seen_keys: continue          # the very same argument expression met again
+            ordinal = sum(1 for s_ in seen_keys if isinstance(s_, tuple) and s_[0] == base_key)
+            seen_keys.add(sig)
+            key = base_key if ordinal == 0 else f"{base_key}/{ordinal}"     # one obligation per distinct argument (several call paths may reach one conversion site)
             lo, hi, nan = frange(ob['arg'])
             tlo, thi = X.int_range(ob['to'])
             if not nan and lo > tlo - 1 and hi < thi + 1:
@@ -213,7 +216,7 @@ def discharge(ck, ctx, it, marks, label, conv, sites_seen):
             else:
                 w = float_witness(ob['arg'], tlo, thi, ob['pc'])
                 if w:
-                    ck.ob(key, 'REFUTED', f"to_int_unchecked at {fn}:{ln} receives {w[1]} when {w[0]} (the preceding f32::clamp propagates NaN)", witness=str(w))
+                    ck.ob(key, 'REFUTED', f"to_int_unchecked at {fn}:{ln} receives {w[1]} when {w[0]}", witness=str(w))
                 else:
                     ck.ob(key, 'UNDECIDED', f"argument of to_int_unchecked not shown finite / in range: [{lo}, {hi}], may be NaN: {nan}")
 
